@@ -55,6 +55,8 @@ def clutter(rng, cfg):
     # indices at the end of u32 (the code's index type): the next index does not exist (fixed defect, section 9), and one that
     # does not fit into u32 at all
     pool += [fixed + b"_r4294967295" + sfx, fixed + b"_r4294967294" + sfx, fixed + b"_r4294967296" + sfx, fixed + b"_r4294967295" + sfx + b".gz"]
+    # what only chrono's lenient parser reads as a time stamp
+    pool += [fixed + b"_r2024-1-5_3-4-5" + sfx, fixed + b"_r+2024-01-05_03-04-05" + sfx, fixed + b"_r 2024-01-05_03-04-05" + sfx]
     pool = [n for n in pool if n]      # (an empty name is no file name)
     return rng.sample(pool, rng.randint(1, min(5, len(pool))))
 
